@@ -267,7 +267,7 @@ struct Generated {
 }
 
 fn generate(r: &Report) -> Generated {
-    let depth: usize = r.pick(3, 4);
+    let depth: usize = r.pick(3, 5);
     let progs: u8 = r.pick(2, 4);
     let mut histories: Vec<History> = Vec::new();
     let mut seen: std::collections::BTreeSet<[u8; 32]> = Default::default();
